@@ -134,9 +134,10 @@ PROPS["C01"] = dict(
 
 PROPS["C02"] = dict(
     modules=["Hub.Props.C02"],
-    gens=["store-c02"],
+    gens=["store-c02", "c02http"],
     rule=STORE_RULE + "after every op: change feeds read with limit lists from {0},{1×8},{2,0},{3,1,0},{5,5}, since in {0,1,3,2^40}, with and without latest-only, "
-         "following the returned tokens; non-trivial = at least 3 stored versions; distinct = distinct histories",
+         "following the returned tokens; plus the HTTP upload path (c02.http): requests of 1-45 entities with repeated ids POSTed through the real handler (which stores in chunks of ten "
+         "while it parses), the whole feed read back through GET changes following the continuation tokens, compared with the sequential duplicate-detection fold; non-trivial = at least 3 stored versions; distinct = distinct histories",
     trusted=STORE_TRUST,
     assumptions=["positions handed out by the badger Sequence strictly increase per dataset (gaps allowed)"],
     level_text="Proof: under the refinement invariant the change log read in key order is the specification's feed (changesOf_eq_feedOf, feed_eq_versions), each accepted "
